@@ -4,6 +4,8 @@ delivery, latency, stall, late pickle and death.  Serves C11 C12 C18 and the mul
 """
 from __future__ import annotations
 
+import os
+
 import copy
 from collections import Counter
 from typing import List, Optional
@@ -22,6 +24,18 @@ DEADLINE_AFTER_LAST_EVENT_MS = 120_000
 
 
 def run(ch: Choices, focus: str = "C11", params: Optional[dict] = None) -> dict:
+    # the allocator's contents are one more seeded choice of the run (seams.dirty_allocator)
+    if os.environ.get("NUMBA_DISABLE_JIT"):
+        pat = seams.draw_pattern(ch)
+        with seams.dirty_allocator(pat):
+            out = _run(ch, focus, params)
+        if pat is not None:
+            out["faults"]["dirty-allocator"] += 1
+        return out
+    return _run(ch, focus, params)
+
+
+def _run(ch: Choices, focus: str = "C11", params: Optional[dict] = None) -> dict:
     params = params or {}
     known = params.get("known", {})
     seams.install()
